@@ -305,6 +305,10 @@ impl TransformExtensionList {
                 }
                 iter.next();
             } else if is_language_subtag(subtag) {
+                if text.tlang.is_some() {
+                    // only one tlang is allowed
+                    return Err(ParserError::InvalidSubtag);
+                }
                 text.tlang = Some(
                     LanguageIdentifier::try_from_iter(iter, true)
                         .map_err(|_| ParserError::InvalidLanguage)?,
